@@ -32,6 +32,12 @@ def extra_cases(rng, tier):
             kink(name, "ties %s" % axn, (lambda m, z, name=name, kw=kw: getattr(m, name)(z, **kw)), [kx])
     kink("where", "threshold met exactly", (lambda m, z: m.where(z > 1.0, z * z, 3.0 * z)), [kx])
     kink("sort", "ties", (lambda m, z: m.sort(z, axis=None)), [kx])
+    ties1 = onp.array([2.0, 1.0, 2.0, 1.0, 2.0, 0.5, 1.0])
+    for kd in ("quicksort", "stable", "mergesort", "heapsort"):
+        kink("sort", "ties kind=%s" % kd, (lambda m, z, kd=kd: m.sort(z, kind=kd)), [ties1])
+        kink("sort", "ties kind=%s axis=-1 of a vector, times weights" % kd, (lambda m, z, kd=kd: m.sort(z, axis=-1, kind=kd) * onp.arange(1.0, 8.0)), [ties1])
+    kink("partition", "ties", (lambda m, z: m.partition(z, 3)), [ties1])
+    kink("median", "ties", (lambda m, z: m.median(z)), [ties1])
     for name in ("mod", "remainder", "fmod"):
         kink(name, "exact multiples", (lambda m, a, b, name=name: getattr(m, name)(a, b)),
              [onp.array([3.0, -4.5, 6.0, 2.5]), onp.array([1.5, 1.5, -2.0, 2.5])], (0, 1))
@@ -78,6 +84,25 @@ def extra_cases(rng, tier):
             else:
                 f = lambda m, z, ax=ax, name=name: getattr(m, name)(z, axis=ax)                                # noqa: E731
             add(name, "axis=np.%s(%d)" % (type(ax).__name__, int(ax)), f, [d234], [0], False)
+    # ---- (0d) zero-size arrays and length-1 axes stretched to length 0: shapes are all there is to get right ----
+    for s1, s2 in (((1, 3), (0, 3)), ((0, 3), (3,)), ((0,), ()), ((2, 0), (1,)), ((1,), (0,)), ((0, 1), (1, 4)), ((2, 1, 0), (3, 1))):
+        for name in ("add", "subtract", "multiply", "divide", "mod", "remainder", "maximum", "power", "arctan2", "logaddexp", "hypot"):
+            add(name, "zero-size shapes=%s,%s" % (s1, s2), (lambda m, a, b, name=name: getattr(m, name)(a, b)),
+                [onp.ones(s1) * 1.5, onp.ones(s2) * 2.5], [0, 1], False)
+    for sh in ((0,), (0, 3), (2, 0), (1, 0, 2)):
+        z0 = onp.ones(sh)
+        table0 = {"reshape-1": lambda m, z: m.reshape(z, (-1,)), "transpose": lambda m, z: m.transpose(z), "ravel": lambda m, z: m.ravel(z),
+                  "flip": lambda m, z: m.flip(z, 0), "squeeze-none": lambda m, z: m.squeeze(z), "concatenate-self": lambda m, z: m.concatenate([z, z], axis=0),
+                  "sum": lambda m, z: m.sum(z, axis=0), "mean": lambda m, z: m.sum(z) + 0.0, "prod": lambda m, z: m.prod(z, axis=-1),
+                  "cumsum": lambda m, z: m.cumsum(z, axis=0), "sort": lambda m, z: m.sort(z.ravel()), "exp": lambda m, z: m.exp(z),
+                  "negative": lambda m, z: -z}
+        for name, f in table0.items():
+            add(name.split("-")[0], "zero-size input %s" % (sh,), f, [z0], [0], False)
+    add("dot", "(2,0) x (0,3)", (lambda m, a, b: m.dot(a, b)), [onp.ones((2, 0)), onp.ones((0, 3))], [0, 1], False)
+    add("matmul", "(0,2) x (2,3)", (lambda m, a, b: m.matmul(a, b)), [onp.ones((0, 2)), onp.ones((2, 3))], [0, 1], False)
+    add("getitem", "empty slice", (lambda m, a: a[3:1] * 2.0), [onp.arange(4.0)], [0], False)
+    add("getitem", "empty integer array", (lambda m, a: a[onp.array([], dtype=int)]), [onp.arange(4.0)], [0], False)
+    add("where", "zero-size", (lambda m, a, b: m.where(onp.zeros((0, 2), bool), a, b)), [onp.ones((1, 2)), onp.ones((0, 2))], [0, 1], False)
     # ---- (a) the same array object in two argument positions: the derivative is the sum over both positions ----
     v4 = R.distinct(rng, (4,))
     p4 = R.positive(rng, (4,))
